@@ -47,6 +47,23 @@ func TestGenerated(t *testing.T) {
 			harness.Fail(rt, "tokens", src, meta(v), "[%s] parsed tokens/positions differ from the generator's (parsed vs model): %s\nsource: %q", v, d, src)
 		}
 		(&progs.Case{G: g, Root: root, Ver: v}).Report()
+		// twin rendering: every operand in parentheses; the grouping no longer depends on
+		// precedence, so a disagreement here that is absent above would point at the
+		// generator's precedence table rather than at the parser
+		if added := g.BracketAll(root); added > 0 {
+			tw := g.Render(root, phpgen.Policy{Kind: phpgen.PolicySpace}).Src
+			tr := px.Parse(tw, v, true)
+			harness.Eval()
+			if tr.Panic == "" {
+				if len(tr.Errs) > 0 || tr.Root == nil {
+					harness.Fail(rt, "twin-rejected", tw, meta(v), "[%s] fully bracketed twin of a valid program rejected: %s\nsource: %q", v, px.ErrString(tr.Errs), tw)
+				}
+				if d := astx.Equal(phpgen.StripBrackets(tr.Root), phpgen.StripBrackets(astx.Clone(r.Root)), astx.Structure); d != "" {
+					harness.Fail(rt, "twin-grouping", tw, meta(v), "[%s] the fully bracketed twin and the minimally bracketed program parse to different groupings (twin vs original, brackets removed): %s\ntwin: %q\noriginal: %q", v, d, tw, src)
+				}
+				harness.Class("twin-rendering")
+			}
+		}
 		if g.Feat["operators-adjacent-unbracketed"] >= 2 || g.Feat["dangling-else-nearest"] > 0 || g.Feat["keyword-case"] > 0 || g.Feat["alt-syntax"] > 1 {
 			harness.NonTrivial(src, fmt.Sprintf("[%s] %q", v, src))
 		}
